@@ -43,7 +43,9 @@ ROWS = {
              (D(2025, 3, 1), "NETFLIX BANK", 15.5, ""), (D(2025, 3, 2), "UBER EATS BANK", 0.25, "tip")],
     "Cash": [(D(2025, 3, 5), "NETFLIX CASH", 7.0, ""), (D(2025, 3, 6), "MARKET CASH", 12.25, "")],
     # a source whose format string is character-identical to Card's, but with different delimiter / header / sign overrides
-    "Twin": [(D(2025, 1, 6), "NETFLIX TWIN", 9.0, ""), (D(2025, 2, 7), "UBER TWIN", -4.5, ""), (D(2025, 2, 8), "MARKET TWIN", 40.0, "")],
+    "Twin": [(D(2025, 1, 6), "NETFLIX TWIN", 9.0, ""), (D(2025, 2, 7), "UBER TWIN", -4.5, ""), (D(2025, 2, 8), "MARKET TWIN", 40.0, ""),
+             # the same line (date, description, amount) as Card's first row: a rule that tests `source` must still see which file it came from
+             (D(2025, 1, 5), "SQ *NETFLIX CARD", 15.5, "")],
 }
 ORDERS = [(D(2025, 2, 3), "Book", 99.75), (D(2025, 3, 2), "Pen", 0.25)]
 
@@ -125,7 +127,7 @@ def deviations():
     for s in ("Card", "Bank"):
         for l in (1, 2):
             devs.append((f"{s}.layout", f"{s}:layout{l}", lambda c, s=s, l=l: c["sources"][s].__setitem__("layout", l)))
-        for d in ("semicolon", "tab"):
+        for d in ("semicolon", "tab", "tab-literal"):
             devs.append((f"{s}.delimiter", f"{s}:delim-{d}", lambda c, s=s, d=d: c["sources"][s].__setitem__("delimiter", d)))
         devs.append((f"{s}.header", f"{s}:no-header", lambda c, s=s: c["sources"][s].__setitem__("header", False)))
         devs.append((f"{s}.decimal", f"{s}:decimal-comma", lambda c, s=s: c["sources"][s].__setitem__("decimal", ",")))
@@ -211,6 +213,8 @@ def source_yaml(key, sc):
         lines.append('    delimiter: ";"')
     elif sc["delimiter"] == "tab":
         lines.append("    delimiter: tab")
+    elif sc["delimiter"] == "tab-literal":
+        lines.append('    delimiter: "\\t"')          # YAML double-quoted escape: the value is one TAB character
     if not sc["header"]:
         lines.append("    has_header: false")
     if sc["decimal"] == ",":
@@ -309,13 +313,17 @@ def expected_stats(cfg, base, mode=None):
         ds["orders"].append({"date": dt.date(2025, 1, 20), "item": "Caf\ufffd Latin", "amount": 3.33, "description": "Caf\ufffd Latin"})
     txns = []
     readable = []
-    for key in cfg["order"]:
+    # the rows are classified in the REVERSE of the order `tally up` reads them (a transaction's classification cannot depend on
+    # what was classified before it), then put back into reading order
+    per_source = {}
+    for key in reversed(cfg["order"]):
         sc = cfg["sources"][key]
         if sc["state"] != "ok":
             continue
-        readable.append(sc["name"])
+        readable.insert(0, sc["name"])
         has_memo = "memo" in LAYOUTS[key][sc["layout"]]
-        for d, desc, amt, memo in ROWS[key]:
+        txns = per_source.setdefault(key, [])
+        for d, desc, amt, memo in reversed(ROWS[key]):
             a = expected_amount(amt, sc["sign"])
             field = {"memo": memo} if has_memo else None
             m, c, s, info = normalize_merchant(desc, rules, amount=a, txn_date=d, field=dict(field) if field else None, data_source=sc["name"],
@@ -324,7 +332,8 @@ def expected_stats(cfg, base, mode=None):
                  "subcategory": s, "source": sc["name"], "location": None, "match_info": info, "tags": (info or {}).get("tags", []), "field": field}
             if info and info.get("extra_fields"):
                 t["extra_fields"] = info["extra_fields"]
-            txns.append(t)
+            txns.insert(0, t)
+    txns = [t for key in cfg["order"] for t in per_source.get(key, [])]
     H.reset_state()
     if not txns:
         return None, readable
